@@ -64,16 +64,19 @@ def main() -> int:
     try:
         a = sh(["git", "-C", str(REPO), "apply", str(d / "patch.diff")])
         assert a.returncode == 0, a.stderr
-        for p in claimed:
-            r = sh([PY, "sa/check.py", p], cwd=VERIF)
+        from concurrent.futures import ThreadPoolExecutor
+
+        with ThreadPoolExecutor(max_workers=16) as ex:
+            results = list(ex.map(lambda p: (p, sh([PY, "sa/check.py", p], cwd=VERIF)), claimed))
+        for p, r in results:
             if r.returncode != 0:
                 lines = [l.strip() for l in r.stdout.splitlines() if l.startswith("  rule ") or l.startswith("ANALYSIS-ERROR")]
                 fired[p] = [f"exit={r.returncode}", *lines[:4]]
     finally:
         sh(["git", "-C", str(REPO), "checkout", "--", "."])
         # restore evidence files written while the patch was applied
-        for p in claimed:
-            sh([PY, "sa/check.py", p], cwd=VERIF)
+        with ThreadPoolExecutor(max_workers=16) as ex:
+            list(ex.map(lambda p: sh([PY, "sa/check.py", p], cwd=VERIF), claimed))
     out["checks_fired"] = fired
     out["detected_by_own_property"] = prop in fired and fired[prop][0] == "exit=1"
     out["confirmed"] = out.get("demo_clean_exit") == 0 and out.get("demo_patched_exit") == 1 and out.get("suite_exit") == 0
